@@ -181,8 +181,34 @@ func isMarkPrologue(c *Ctx, info *types.Info, m *opMethod) (bool, string) {
 		}
 	}
 	// all operands are tested at the same depth
+	// (an operand the method itself treats as a set — it asserts the operand's payload to the set representation —
+	// cannot carry marks below its top level, because SetVal moves its members' marks to the set: for it the
+	// top-level test is a test at every depth)
+	isSetOperand := func(op *types.Var) bool {
+		found := false
+		ast.Inspect(m.Decl.Body, func(n ast.Node) bool {
+			ta, ok := n.(*ast.TypeAssertExpr)
+			if !ok || ta.Type == nil {
+				return true
+			}
+			se, ok := ast.Unparen(ta.X).(*ast.SelectorExpr)
+			if !ok || se.Sel.Name != "v" {
+				return true
+			}
+			if o := objOf(info, se.X); o != nil && o.Name() == op.Name() && isCtyValue(o.Type()) {
+				if t := info.TypeOf(ta.Type); t != nil && strings.HasPrefix(namedTypeNoPtr(t), "cty/set.Set") {
+					found = true
+				}
+			}
+			return true
+		})
+		return found
+	}
 	depth := ""
 	for _, op := range m.Operands {
+		if tested[op] == "cty.Value.IsMarked" && isSetOperand(op) {
+			continue
+		}
 		if depth != "" && tested[op] != depth {
 			return false, fmt.Sprintf("operands are tested at different depths (%s uses %s): the method either tolerates nested marks on all operands or on none", op.Name(), strings.TrimPrefix(tested[op], "cty.Value."))
 		}
